@@ -407,6 +407,9 @@ func runC05(c *Ctx, r *Report) {
 		r.floor(an+" call sites", total, 2)
 	}
 	c05r3(c, r)
+	c04r3(c, r)   // order purity: merge must agree with the per-partition sort
+	c08r5(c, r)   // per-item tokens must not survive a change of --nth
+	c08r3(c, r)   // nth/denylist change invalidates caches and bumps the revision
 }
 
 // C05-R3: criteria whose rank key is data-derived from the match's begin offset need exact positions.
